@@ -7,7 +7,11 @@ use std::path::PathBuf;
 use std::sync::Mutex;
 use std::time::Instant;
 
-pub const VERIF_DIR: &str = "/verif";
+/// The directory the machinery lives in: the driver passes its own location (so that a snapshot of
+/// /verif run elsewhere reads and writes its own files); `/verif` otherwise.
+pub fn verif_dir() -> PathBuf {
+    std::env::var_os("WAXMC_VERIF_DIR").map(PathBuf::from).unwrap_or_else(|| PathBuf::from("/verif"))
+}
 
 #[derive(Clone, Copy, PartialEq, Eq, Debug)]
 pub enum Tier {
@@ -72,7 +76,7 @@ pub struct Finding {
 }
 
 pub fn load_findings() -> Vec<Finding> {
-    let path = PathBuf::from(VERIF_DIR).join("known_findings.json");
+    let path = verif_dir().join("known_findings.json");
     let Ok(text) = std::fs::read_to_string(&path) else { return vec![] };
     let v: Value = match serde_json::from_str(&text) {
         Ok(v) => v,
@@ -205,7 +209,7 @@ impl Report {
                 self.prop, class, what, raised(class).max(*n), example
             );
         }
-        let replay_dir = PathBuf::from(VERIF_DIR).join("evidence").join("replays");
+        let replay_dir = verif_dir().join("evidence").join("replays");
         let _ = std::fs::create_dir_all(&replay_dir);
         // remove stale replay files of this property
         if let Ok(rd) = std::fs::read_dir(&replay_dir) {
@@ -276,7 +280,7 @@ impl Report {
             "wall_s": wall,
             "violations": violations.len(),
         });
-        let evpath = PathBuf::from(VERIF_DIR).join("evidence").join(format!("{}.json", self.prop));
+        let evpath = verif_dir().join("evidence").join(format!("{}.json", self.prop));
         if let Err(e) = std::fs::write(&evpath, serde_json::to_string_pretty(&ev).unwrap()) {
             eprintln!("machinery: cannot write evidence {}: {}", evpath.display(), e);
             return 2;
